@@ -302,6 +302,7 @@ func (w *World) begin(kind string, p *Proc, part string) *OpRec {
 
 func (w *World) end(op *OpRec) {
 	op.T1 = w.S.Elapsed()
+	op.Done = true
 	if op.offNode != nil {
 		op.offNode()
 	}
